@@ -30,6 +30,8 @@ def run(ctx):
     rc = ctx.rule('R40.c', 'no pointer just tested NULL is handed to a %s conversion or a str* function (vpmap.c)', floor=8)
     rd = ctx.rule('R40.d', 'a loop that fills parsec_vpmap[v] for v < parsec_nbvp re-publishes the count (v + 1) on every early exit', floor=2)
     check_partial_fill(ctx, u, rd)
+    re40 = ctx.rule('R40.e', 'thread placement: the cores handed to parsec_set_thread_location / returned by parsec_select_vpmap_thread_core are translated resources (parsec_find_core_by_idx), never raw indexes of the map', floor=3)
+    check_core_domain(ctx, re40)
     for name in BUILDERS:
         f = u.func(name)
         if f is None:
@@ -123,6 +125,65 @@ def run(ctx):
 # ---------------------------------------------------------------------------------------
 PRINTF = {'printf': 0, 'fprintf': 1, 'sprintf': 1, 'snprintf': 2, 'asprintf': 1, 'parsec_warning': 0, 'parsec_inform': 0, 'parsec_fatal': 0}
 STRFN = {'strlen', 'strcpy', 'strdup', 'strchr', 'strrchr', 'strcmp', 'strncmp', 'strtol', 'strtod', 'atoi', 'strcat', 'strstr'}
+
+
+CORE_SOURCES = ('parsec_find_core_by_idx', 'parsec_select_vpmap_thread_core')
+
+
+def _core_typed(f):
+    """locals whose every definition is a translated core (result of a CORE_SOURCES call), -1, or another such local"""
+    defs = {}
+    for s_ in f.stores():
+        if s_.lhs.k == 'ref' and s_.lhs.dk in ('var',) and s_.op == '=':
+            defs.setdefault(s_.lhs.s, []).append(s_.rhs)
+    good = set()
+    changed = True
+    while changed:
+        changed = False
+        for v, rs in defs.items():
+            if v in good:
+                continue
+            def ok(r):
+                if r is None:
+                    return False
+                if r.k == 'asg':
+                    r = r.ch[1]
+                return (r.k == 'call' and r.n in CORE_SOURCES) or (r.cv is not None and r.cv == -1) or (r.k == 'un' and r.op == '-' and r.ch[0].cv == 1) or (r.k == 'ref' and r.s in good)
+            if all(ok(r) for r in rs):
+                good.add(v); changed = True
+    return good
+
+
+def check_core_domain(ctx, rule):
+    """The virtual-process map names its candidates by index *relative to the cores the process may use*; the binding needs the
+    resource itself.  parsec_find_core_by_idx translates; an index that skips the translation binds a thread to a core outside
+    the allowed set as soon as the allowed set does not start at 0 (the map then does not match its specification)."""
+    u = ctx.extract('parsec/parsec.c')
+    f = u.func('parsec_select_vpmap_thread_core'); ctx.functions_analysed.add(f.name)
+    good = _core_typed(f)
+    for r in f.returns():
+        e = r.e
+        ok = e is not None and ((e.cv is not None and e.cv == -1) or (e.k == 'un' and e.op == '-') or (e.k == 'ref' and e.s in good) or (e.k == 'call' and e.n in CORE_SOURCES))
+        rule.expect(ok, 'select:return:%s' % (e.s if e is not None else '?'), r.loc,
+                    'parsec_select_vpmap_thread_core returns %s, which is not a core translated by parsec_find_core_by_idx (nor -1): a raw index of the candidate set names another core whenever the allowed cores do not start at 0'
+                    % (e.s if e is not None else '?'), note='select_vpmap_thread_core returns %s: a translated core or -1' % (e.s if e is not None else '?'))
+    n = 0
+    for g in u.funcs().values():
+        if not g.file.endswith('parsec/parsec.c') or g.name == 'parsec_set_thread_location':
+            continue
+        calls = g.calls('parsec_set_thread_location')
+        if not calls:
+            continue
+        ctx.functions_analysed.add(g.name)
+        goodg = _core_typed(g)
+        for c in calls:
+            a = c.args[3]
+            ok = (a.k == 'ref' and (a.s in goodg)) or (a.k == 'call' and a.n in CORE_SOURCES) or (a.cv is not None and a.cv == -1)
+            n += 1
+            rule.expect(ok, 'place:%s:%s' % (g.name, a.s), c.loc, '%s places a thread on %s, which is not a core translated by parsec_find_core_by_idx' % (g.name, a.s),
+                        note='%s: set_thread_location(%s) - translated core' % (g.name, a.s))
+    if n == 0:
+        raise AnalysisBroken('no call of parsec_set_thread_location found in parsec.c')
 
 
 def check_partial_fill(ctx, u, rd):
